@@ -235,4 +235,18 @@ PROPS = {
         "trusted_base": ["the harness reads struct lp_algebraic_number_struct fields directly (f, I, sgn_at_a, sgn_at_b)"],
         "assumptions": [],
     },
+    "C10": {
+        "level": "proof",
+        "lean_targets": ["LP.Props.C10"],
+        "harnesses": [{"name": "h_eval", "quick": 700, "thorough": 15000}],
+        "select": lambda t: t[1] == "ev" and t[2] in ("sgn", "value", "cons"),
+        "nontrivial": lambda t, r: True,
+        "rule": "polynomials in three variables under total assignments: (sqrt2, sqrt3, sqrt6) with signs, conjugate pairs, 1+-sqrt3, "
+                "cubic root of 2 and the golden ratio, rationals in every representation, random tuples; polynomials q*T + c with T "
+                "vanishing on the tuple and c in {0, +-1} (also scaled by 2^10..2^40), random polynomials, and d*x0 - n with n/d inside the "
+                "isolating interval of a root of a - M(x+..+x^n) (zero-test bound family); sgn, evaluate, constraint_evaluate (six "
+                "conditions), 20% under the reversed variable order. Every line is non-trivial.",
+        "trusted_base": ["the eliminant of z - p(x) (iterated Sylvester determinants of the model) vanishes at p(alpha): classical, not formalised"],
+        "assumptions": ["largest elimination step of Sylvester order <= 8; above that only certified non-zero signs are judged"],
+    },
 }
